@@ -65,13 +65,14 @@ def points(rnd, lo, hi, n, logscale=True):
 
 
 def classify(ir, name, params, attrs, method, kind, x, exc, what, origin=None, result=None):
-    cls = ir[name]
+    """tag from the failing INPUT pattern. `ir` may be None / empty (translator refused the source): only the nan-guard tag needs it"""
+    cls = (ir or {}).get(name)
     # C10-F6 in all its guises: Virial.loading (Nelder-Mead started at the pressure value) reports success at a NEGATIVE loading
     if name == 'Virial' and exc is None and ((method == 'loading' and result is not None and result < 0) or (method == 'pressure' and what == 'roundtrip' and x < 0)):
         return 'C10:Virial-loading-start-far-from-root'
-    if exc == 'ValueError' and cls['methods'][method]['kind'] == 'fun' and cls['methods'][method].get('nan_guard') \
+    if cls is not None and exc == 'ValueError' and cls['methods'][method]['kind'] == 'fun' and cls['methods'][method].get('nan_guard') \
             and kind in ('pyfloat', 'npfloat', '0d') and fl.nan_branch_hit(cls, method, params, attrs, float(x)):
-        return 'C10:nan_to_num-copy-False-on-scalar'
+        return 'C10:nan_to_num-copy-False-on-scalar'     # C10-F1, fixed by c2b035c: listed under "fixed", so this is a VIOLATION again
     # C10-F8: the VST pressure equation has further pre-images OUTSIDE [0, n_m]; the root finder may land on one
     if name in ('WVST', 'FHVST') and method == 'loading' and exc is None and what in ('roundtrip', 'root-certificate'):
         return 'C10:VST-loading-root-finder-reports-success-at-a-wrong-root'
@@ -130,8 +131,10 @@ def explore(rep, tier, seed):
             cls, sp = ir[name], SPECS[name]
             for method in ('loading', 'pressure'):
                 mk = cls['methods'][method]
+                regs = sorted(sp.regimes)
                 for i in range(n_val):
-                    params, attrs = fl.sample_case(name, rnd)
+                    # the first iterations walk through the parameter regimes (both signs of the quadratic's leading coefficient ...)
+                    params, attrs = fl.sample_case(name, rnd, regs[i % len(regs)] if i < 2 * len(regs) else None)
                     m = fl.make_model(name, params, attrs)
                     explicit_is_loading = cls['calculates'] == 'loading'
                     # a point of the validity range, in the argument space of `method`
@@ -203,7 +206,7 @@ def explore(rep, tier, seed):
         except CalculationError:
             return
         except Exception as e:  # noqa
-            tag = classify(ir or {}, name, params, attrs, first_name, kind, xs[0], type(e).__name__, 'exception') if ir else 'C10:unclassified:exception'
+            tag = classify(ir, name, params, attrs, first_name, kind, xs[0], type(e).__name__, 'exception')
             rep.failure(tag, '%s.%s(%r) [%s] raised %s: %s' % (name, first_name, arg, kind, type(e).__name__, str(e)[:80]), replay)
             return
         try:
@@ -212,7 +215,7 @@ def explore(rep, tier, seed):
             return
         except Exception as e:  # noqa
             yv = flat(y)
-            tag = classify(ir, name, params, attrs, second_name, kind, yv[0], type(e).__name__, 'exception') if ir else 'C10:unclassified:exception'
+            tag = classify(ir, name, params, attrs, second_name, kind, yv[0], type(e).__name__, 'exception')
             rep.failure(tag, '%s.%s(%r) [%s] raised %s: %s' % (name, second_name, y, kind, type(e).__name__, str(e)[:80].replace('\n', ' ')), replay)
             return
         bv = flat(back)
@@ -235,13 +238,13 @@ def explore(rep, tier, seed):
         else:
             worst = max(range(len(used)), key=lambda i: abs(bv[i] - used[i]) if i < len(bv) and bv[i] == bv[i] else 1e300) if len(bv) == len(used) else 0
             tag = classify(ir, name, params, attrs, second_name, kind, flat(y)[worst if kind == '1dN' else 0], None, 'roundtrip',
-                           used[worst], result=(bv[worst] if worst < len(bv) else None)) if ir else 'C10:unclassified:roundtrip'
+                           used[worst], result=(bv[worst] if worst < len(bv) else None))
             rep.failure(tag, '%s: %s(%s(x)) != x for x=%r [%s]: got %r (params %r)' % (name, second_name, first_name, used, kind, bv, params), replay)
 
     names = sorted(SPECS)
     for name in names:
         sp = SPECS[name]
-        cases = [(fl.sample_case(name, rnd)) for _ in range(n_param)]
+        cases = fl.stratified_cases(name, rnd, n_param, 2 if thorough else 1)
         if name in DEGENERATE:
             cases += [(DEGENERATE[name][1](rnd), {}) for _ in range(2)]
         for params, attrs in cases:
@@ -277,16 +280,27 @@ def explore(rep, tier, seed):
             if sp.sat is not None and explicit_loading and np.any(g > sp.sat(params) * (1 + 1e-12)):
                 rep.failure('C10:unclassified:%s:above-saturation' % name, '%s.loading exceeds the saturation capacity %r (params %r)' % (name, sp.sat(params), params), rp)
             if sp.zero_defined:
-                for kind in ('pyfloat', '1d1'):
-                    try:
-                        z = flat(fwd(as_kind([0.0], kind)))
-                        if not (len(z) == 1 and abs(z[0]) <= 1e-300):
-                            rep.failure('C10:unclassified:%s:zero-point' % name, '%s.%s(0) = %r' % (name, fn, z),
-                                        {'model': name, 'params': params, 'attrs': attrs, 'method': fn, 'kind': kind, 'x': [0.0]})
-                    except Exception as e:  # noqa
-                        rep.failure('C10:unclassified:%s:zero-point-exception' % name, '%s.%s(0) raised %r' % (name, fn, e),
-                                    {'model': name, 'params': params, 'attrs': attrs, 'method': fn, 'kind': kind, 'x': [0.0]})
-                    evals += 1
+                # the zero point of BOTH functions, for every input kind (Python float, numpy scalar, 0-d, 1-d), at every parameter vector
+                # incl. the degenerate ones (theorems *_zero, *_zero_point, *_zero_roundtrip: 0 |-> 0 in both directions)
+                for zf, zn in ((fwd, fn), (inv, inn)):
+                    for kind in ('pyfloat', 'npfloat', '0d', '1d1', '1dN'):
+                        zin = [0.0, 0.0] if kind == '1dN' else [0.0]
+                        if name == 'Virial' and zn == 'loading' and kind == '1dN':
+                            continue        # C10-F5 (array input of the Nelder-Mead inverse) is exercised by the round trips
+                        try:
+                            z = flat(zf(as_kind(zin, kind)))
+                            if not (len(z) == len(zin) and all(abs(v) <= (1e-300 if zn == fn else 1e-9) for v in z)):
+                                rep.failure('C10:unclassified:%s:zero-point' % name, '%s.%s(0) [%s] = %r (params %r)' % (name, zn, kind, z, params),
+                                            {'model': name, 'params': params, 'attrs': attrs, 'method': zn, 'kind': kind, 'x': zin})
+                            else:
+                                bump('zero:%s:%s' % (zn, kind))
+                        except CalculationError:
+                            bump('zero:%s:solver-refused' % zn)
+                        except Exception as e:  # noqa
+                            rep.failure(classify(ir, name, params, attrs, zn, kind, 0.0, type(e).__name__, 'zero-point-exception'),
+                                        '%s.%s(0) [%s] raised %s: %s (params %r)' % (name, zn, kind, type(e).__name__, str(e)[:80], params),
+                                        {'model': name, 'params': params, 'attrs': attrs, 'method': zn, 'kind': kind, 'x': zin})
+                        evals += 1
             if sp.henry is not None:
                 eps = lo * 1e-30
                 try:
@@ -302,11 +316,7 @@ def explore(rep, tier, seed):
             if not (mono and (observed_mono or name not in ('WVST', 'FHVST', 'Virial'))):
                 bump('roundtrip-skipped:not-monotone-parameters')
                 continue
-            if is_degenerate(name, params):
-                kinds = ['1d1', '1dN', 'pyfloat']
-            else:
-                kinds = KINDS
-            for kind in kinds:
+            for kind in KINDS:
                 pts = ([0.0] + xs) if (kind == '1dN' and sp.zero_defined) else xs
                 judge_roundtrip(name, params, attrs, m, fwd, inv, pts, kind, sp.inv_rtol, fn, inn)
                 # the converse: start in the range of the explicit function (values rounded, so they are not exact images)
@@ -319,8 +329,32 @@ def explore(rep, tier, seed):
             if sp.zero_defined:
                 for kind in ('pyfloat', 'npfloat', '0d', '1d1'):
                     judge_roundtrip(name, params, attrs, m, fwd, inv, [0.0], kind, sp.inv_rtol, fn, inn)
+                    judge_roundtrip(name, params, attrs, m, inv, fwd, [0.0], kind, sp.inv_rtol, inn, fn)
             if len(samples) < 6 and rnd.random() < 0.1:
                 samples.append({'model': name, 'params': params, 'attrs': attrs, 'x': xs, fn: flat(fwd(np.array(xs)))})
+            # ---- the equations are evaluated with the object's CURRENT parameters: same object re-parametrised, asked again at arguments it has
+            # already answered == a freshly built model (memoised values, quantities derived once from the parameters ... would show here)
+            params2, attrs2 = fl.sample_case(name, rnd)
+            m.params.update(params2)
+            for k_, v_ in attrs2.items():
+                setattr(m, k_, v_)
+            fresh = fl.make_model(name, params2, attrs2)
+            for meth in (fn, inn):
+                arg = xs[0] if meth == fn else ys[0] if ys else xs[0]
+                outs = []
+                for obj in (m, fresh):
+                    try:
+                        outs.append(('Ok', flat(getattr(obj, meth)(arg))))
+                    except Exception as e:  # noqa
+                        outs.append((type(e).__name__, None))
+                evals += 1
+                same = outs[0][0] == outs[1][0] and (outs[0][1] is None or (len(outs[0][1]) == len(outs[1][1]) and all(
+                    (a != a and b != b) or a == b or abs(a - b) <= 1e-12 * max(abs(a), abs(b)) for a, b in zip(outs[0][1], outs[1][1]))))
+                bump('reparametrised:%s' % ('ok' if same else 'FAIL'))
+                if not same:
+                    rep.failure('C10:unclassified:%s:%s:stale-after-parameter-change' % (name, meth),
+                                '%s.%s(%r) on an object re-parametrised from %r to %r gives %r, a fresh model %r' % (name, meth, arg, params, params2, outs[0], outs[1]),
+                                {'model': name, 'params': params2, 'attrs': attrs2, 'method': meth, 'kind': 'pyfloat', 'x': [arg], 'old_params': params})
     # ------------------------------------------------------------ ModelIsotherm wrappers
     wrap_n = wrap_bad = 0
     try:
@@ -345,47 +379,66 @@ def explore(rep, tier, seed):
                         'tolerances: closed forms 1e-8..1e-7 relative, numerical inverses 1e-6 (Virial: Nelder-Mead, 2e-3)']
 
 
-def model_isotherm_wrappers(rep, rnd, n):
-    """ModelIsotherm.loading_at / pressure_at == the C01 converters around the bare model"""
+def _wrapper_env():
     import pygaps
-    from pygaps.units.converter_mode import c_pressure, c_loading, c_material
     from props import c02
     key = 'verif_ads_c10'
     if key not in c02._ADS:
         c02._ADS[key] = pygaps.Adsorbate(key, store=True, **c02.ADS_FULL)
-    mat = pygaps.Material('verif_mat_c10', **c02.MAT_FULL)
+    return key, pygaps.Material('verif_mat_c10', **c02.MAT_FULL)
+
+
+def wrapper_case(name, params, attrs, units, xs):
+    """(got, want): ModelIsotherm.loading_at / pressure_at with unit arguments vs the C01 converters around the bare model"""
+    import pygaps
+    from pygaps.units.converter_mode import c_pressure, c_loading, c_material
+    key, mat = _wrapper_env()
+    pu, lb, lu, mb, mu = units
+    m = fl.make_model(name, params, attrs)
+    iso = pygaps.ModelIsotherm(model=m, material=mat, adsorbate=key, temperature=77.355, pressure_mode='absolute', pressure_unit='bar',
+                               loading_basis='molar', loading_unit='mmol', material_basis='mass', material_unit='g')
+    ads = iso.adsorbate
+    xs = np.array(xs)
+    if m.calculates == 'loading':
+        p_user = c_pressure(xs, 'absolute', 'absolute', 'bar', pu, ads, 77.355)
+        got = iso.loading_at(p_user, pressure_unit=pu, loading_basis=lb, loading_unit=lu, material_basis=mb, material_unit=mu)
+        # the loading is first expressed per REQUESTED material quantity; a fraction / percent is then formed with that material basis / unit
+        want = c_loading(c_material(m.loading(c_pressure(p_user, 'absolute', 'absolute', pu, 'bar', ads, 77.355)), 'mass', mb, 'g', mu, mat),
+                         'molar', lb, 'mmol', lu, ads, 77.355, mb, mu)
+        rel = iso.loading_at(p_user / c_pressure(ads.saturation_pressure(77.355), 'absolute', 'absolute', 'Pa', pu, ads, 77.355), pressure_mode='relative')
+        ok = np.allclose(got, want, rtol=1e-10, atol=0) and np.allclose(rel, m.loading(xs), rtol=1e-9, atol=0)
+    else:
+        got = iso.pressure_at(xs, pressure_unit=pu)
+        want = c_pressure(m.pressure(xs), 'absolute', 'absolute', 'bar', pu, ads, 77.355)
+        ok = np.allclose(got, want, rtol=1e-10, atol=0)
+    return bool(ok), got, want
+
+
+def model_isotherm_wrappers(rep, rnd, n):
+    """ModelIsotherm.loading_at / pressure_at == the C01 converters around the bare model, for requested pressure units, loading bases / units
+    (incl. the dimensionless fraction / percent) TOGETHER with a requested material basis / unit"""
     count = bad = 0
     for name in ('Langmuir', 'BET', 'Toth', 'DSLangmuir', 'Virial', 'TemkinApprox'):
         for _ in range(n):
             params, attrs = fl.sample_case(name, rnd)
-            m = fl.make_model(name, params, attrs)
             sp = SPECS[name]
-            iso = pygaps.ModelIsotherm(model=m, material=mat, adsorbate=key, temperature=77.355, pressure_mode='absolute', pressure_unit='bar',
-                                       loading_basis='molar', loading_unit='mmol', material_basis='mass', material_unit='g')
-            ads = iso.adsorbate
-            pu, mu = rnd.choice(['kPa', 'torr', 'bar']), rnd.choice(['kg', 'g'])
-            # requested loading representation: also other bases, incl. the dimensionless ones, which depend on the REQUESTED material unit
+            pu = rnd.choice(['kPa', 'torr', 'bar'])
+            mb, mu = rnd.choice([('mass', 'kg'), ('mass', 'g'), ('mass', 'mg'), ('volume', 'cm3'), ('volume', 'm3'), ('molar', 'mol')])
             lb, lu = rnd.choice([('molar', 'mol'), ('molar', 'mmol'), ('mass', 'mg'), ('percent', None), ('fraction', None), ('percent', None)])
-            if m.calculates == 'loading':
+            if fl.make_model(name, params, attrs).calculates == 'loading':
                 lo, hi = sp.prange(params)
-                p = np.array(sorted(points(rnd, lo, hi, 3)))
-                p_user = c_pressure(p, 'absolute', 'absolute', 'bar', pu, ads, 77.355)
-                got = iso.loading_at(p_user, pressure_unit=pu, loading_basis=lb, loading_unit=lu, material_unit=mu)
-                want = c_loading(c_material(m.loading(c_pressure(p_user, 'absolute', 'absolute', pu, 'bar', ads, 77.355)), 'mass', 'mass', 'g', mu, mat),
-                                 'molar', lb, 'mmol', lu, ads, 77.355, 'mass', mu)
-                rel = iso.loading_at(p_user / c_pressure(ads.saturation_pressure(77.355), 'absolute', 'absolute', 'Pa', pu, ads, 77.355), pressure_mode='relative')
-                ok = np.allclose(got, want, rtol=1e-10) and np.allclose(rel, m.loading(p), rtol=1e-9)
+                xs = sorted(points(rnd, lo, hi, 3))
             else:
                 lo, hi = sp.nrange(params)
-                nn = np.array(sorted(points(rnd, lo, hi, 3, logscale=False)))
-                got = iso.pressure_at(nn, pressure_unit=pu)
-                want = c_pressure(m.pressure(nn), 'absolute', 'absolute', 'bar', pu, ads, 77.355)
-                ok = np.allclose(got, want, rtol=1e-10)
+                xs = sorted(points(rnd, lo, hi, 3, logscale=False))
             count += 1
+            units = [pu, lb, lu, mb, mu]
+            ok, got, want = wrapper_case(name, params, attrs, units, xs)
             if not ok:
                 bad += 1
-                rep.failure('C10:unclassified:ModelIsotherm-wrapper:%s' % name, 'ModelIsotherm accessor differs from conversion around the bare %s model: %r vs %r' % (name, got, want),
-                            {'model': name, 'params': params, 'attrs': attrs, 'method': 'wrapper', 'kind': '1dN', 'x': [], 'units': [pu, lb, lu, mu]})
+                rep.failure('C10:unclassified:ModelIsotherm-wrapper:%s' % name,
+                            'ModelIsotherm accessor with units %r differs from the conversions around the bare %s model: %r vs %r' % (units, name, got, want),
+                            {'model': name, 'params': params, 'attrs': attrs, 'method': 'wrapper', 'kind': '1dN', 'x': [float(v) for v in xs], 'units': units})
     return count, bad
 
 
@@ -397,7 +450,9 @@ def replay(d):
     m = fl.make_model(r['model'], r['params'], r.get('attrs'))
     print('model', r['model'], r['params'], r.get('attrs'))
     if r['method'] == 'wrapper':
-        print('ModelIsotherm wrapper case; units', r.get('units'))
+        ok, got, want = wrapper_case(r['model'], r['params'], r.get('attrs') or {}, r['units'], r['x'])
+        print('ModelIsotherm (stored: bar, mmol/g) accessor with [pressure unit, loading basis, loading unit, material basis, material unit] =', r['units'])
+        print('  at', r['x'], '->', got, '\n  conversions around the bare model:', want, '\n  agree:', ok)
         return 1
     arg = as_kind(r['x'], r['kind']) if r['x'] else None
     first = r.get('first')
